@@ -173,6 +173,8 @@ def edit_loop(ctx, what: str, kinds: set, n_quick: int = 24, n_thorough: int = 4
         for kind, detail in rec["problems"]:
             if kind == "setup":
                 ctx.machinery(f"edit-loop setup failed: {detail}")
+            if kind not in kinds:
+                ctx.add("edit_loop_problems_of_other_properties")     # reported by the check of the property they belong to
             if kind in kinds:
                 ctx.violation(f"{what}: after `zorg edit` sessions (history {rec['id']}): {kind}: {str(detail)[:400]}",
                               {"history": rec["id"], "script": rec["script"], "trace": rec["trace"], "problems": rec["problems"]})
